@@ -113,6 +113,13 @@ def check(ctx):
         body = outs[0].body
         ok = len(body) == 1 and isinstance(body[0], ast.Expr) and isinstance(body[0].value, ast.Yield) and pseudo(body[0].value.value) == v
     run.check(ok, 'STB', srt.where, ident, 'for _, value in db.items(...): yield value', 'stored rows are filtered or altered on output')
+    # nothing is delivered on any other way: every yield of the sorter is that loop's (a second delivery path - an in-memory
+    # shortcut using sorted() - orders equal keys differently under reverse and makes the result depend on the input size)
+    all_ys = [y for y in own_nodes(srt.node) if isinstance(y, (ast.Yield, ast.YieldFrom))]
+    in_loop = [y for y in all_ys if outs and any(y is x for x in ast.walk(outs[0]))]
+    run.check(bool(all_ys) and len(all_ys) == len(in_loop) == 1, 'STB', srt.where, ident, 'the output loop is the only delivery path',
+              'rows are also delivered on a path that does not go through the keyed store: order of equal keys / reverse / '
+              'dependence on the input size are no longer those of the stored keys')
     ins = [c for c in own_nodes(srt.node) if isinstance(c, ast.Call) and isinstance(c.func, ast.Attribute) and c.func.attr == 'insert'
            and pseudo(c.func.value) == db]
     ok = len(ins) == 1 and isinstance(ins[0].args[0], ast.Call) and pseudo(ins[0].args[0].func) == proc0.node.name and \
@@ -143,6 +150,11 @@ def check(ctx):
     kw = {k.arg: pseudo(k.value) for k in outs[0].iter.keywords} if outs and isinstance(outs[0].iter, ast.Call) else {}
     run.check(bool(rev_p) and kw.get('reverse') == rev_p[0], 'R20', srt.where, ident, 'db.items(reverse=reverse)',
               'reverse does not reach the output order')
+    if rev_p:
+        uses = [n for n in ast.walk(srt.node) if isinstance(n, ast.Name) and n.id == rev_p[0] and isinstance(n.ctx, ast.Load)]
+        kwv = [k.value for k in outs[0].iter.keywords if k.arg == 'reverse'] if outs and isinstance(outs[0].iter, ast.Call) else []
+        run.check(len(uses) == 1 and kwv and uses[0] is kwv[0], 'R20', srt.where, ident, 'reverse is used only as db.items(reverse=)',
+                  'reverse influences something other than the iteration direction of the store')
     kwi = {k.arg: pseudo(k.value) for k in ins[0].keywords} if ins else {}
     run.check(bool(bs_p) and kwi.get('batch_size') == bs_p[0], 'R20', srt.where, ident, 'db.insert(..., batch_size=batch_size)',
               'batch_size does not reach the insert call')
